@@ -20,7 +20,7 @@ type ltxState struct {
 	// Before state
 	before        int
 	processBefore bool
-	beforeBuf     chan *bytes.Buffer
+	beforeBuf     []*bytes.Buffer
 
 	// After state
 	after        int
@@ -59,10 +59,8 @@ func (f *readFile) filterWithLContext(ctx context.Context, ltx lcontext.LContext
 
 	// Scenario 2: Print prev. N lines when current line matches.
 	ls.before = ltx.BeforeContext
+	// The buffer grows with the lines actually kept, the client provided number may be huge.
 	ls.processBefore = ls.before > 0
-	if ls.processBefore {
-		ls.beforeBuf = make(chan *bytes.Buffer, ls.before)
-	}
 
 	// Screnario 3: Print next N lines when current line matches.
 	ls.after = 0
@@ -156,12 +154,11 @@ func (f *readFile) lContextNotMatched(ctx context.Context, ls *ltxState,
 
 	} else if ls.processBefore {
 		// Keep last num BeforeContext raw messages.
-		select {
-		case ls.beforeBuf <- rawLine:
-		default:
-			pool.RecycleBytesBuffer(<-ls.beforeBuf)
-			ls.beforeBuf <- rawLine
+		if len(ls.beforeBuf) >= ls.before {
+			pool.RecycleBytesBuffer(ls.beforeBuf[0])
+			ls.beforeBuf = ls.beforeBuf[1:]
 		}
+		ls.beforeBuf = append(ls.beforeBuf, rawLine)
 	}
 
 	return continueReading
@@ -172,24 +169,18 @@ func (f *readFile) lContextProcessBefore(ctx context.Context,
 	ls *ltxState, lines chan<- *line.Line, rawLine *bytes.Buffer) readStatus {
 
 	i := uint64(len(ls.beforeBuf))
-	for {
-		select {
-		case rawLine := <-ls.beforeBuf:
-			myLine := line.New(rawLine, f.totalLineCount()-i, 100, f.globID)
-			i--
+	for _, rawLine := range ls.beforeBuf {
+		myLine := line.New(rawLine, f.totalLineCount()-i, 100, f.globID)
+		i--
 
-			select {
-			case lines <- myLine:
-			case <-ctx.Done():
-				return abortReading
-			}
-		default:
-			// beforeBuf is now empty.
-		}
-		if len(ls.beforeBuf) == 0 {
-			break
+		select {
+		case lines <- myLine:
+		case <-ctx.Done():
+			return abortReading
 		}
 	}
+	// beforeBuf is now empty.
+	ls.beforeBuf = ls.beforeBuf[:0]
 
 	return nothing
 }
